@@ -236,6 +236,32 @@ def check(run):
     run.ob("R7-pe-extent", "decoders.pe_file.pe_size/max-over-all-sections", ok_ext, f"{pem.rel}:{ps.lineno}",
            "an embedded PE ends at the furthest end of raw data (PointerToRawData + SizeOfRawData) over all of its sections", det, mech="aggregate-shape match (3 spellings)")
 
+    # every MZ signature followed by a full DOS header is a candidate, whatever bytes the header holds
+    fpe = prog.fn("decoders.pe_file.find_pe_files")
+    from ..rx import sc as _sc
+    scans = [n for n in own_nodes(fpe.node) if isinstance(n, ast.Call) and (prog.dotted(pem, n.func) or "").startswith("regex.") and
+             (prog.dotted(pem, n.func) or "").rsplit(".", 1)[-1] in ("finditer", "search", "findall") and n.args]
+    need(len(scans) == 1, "anchor: find_pe_files scans the data with one regex call")
+    pat_mz = prog.try_fold(pem, scans[0].args[0])
+    ok_mz, det_mz = False, "the signature pattern is not a constant"
+    if isinstance(pat_mz, bytes):
+        try:
+            tree_, fl_, _nt = rx.parse(pat_mz)
+            items_ = list(tree_)
+            if items_ and items_[-1][0] is _sc.ASSERT and items_[-1][1][0] == 1:
+                items_ = items_[:-1] + list(items_[-1][1][1])      # a trailing look-ahead constrains the text after the signature like a continuation
+            cand = rx.compile_tree(items_, fl_)
+            hdr = rx.dfa_of(rb"(?s)MZ.{62}", "any", "any")
+            ok_a, wit = rx.included(hdr, rx.concat_sigma_star(cand.dfa), witness=True)
+            ok_b = rx.included(cand.dfa, rx.dfa_of(rb"(?s)MZ.*", "any", "any"))
+            ok_mz = ok_a and ok_b and cand.exact
+            det_mz = (f"a DOS header the pattern does not match: {wit!r}" if not ok_a else "the pattern matches texts that do not start with MZ" if not ok_b else
+                      f"assertions the analysis cannot place: {cand.dropped}")
+        except rx.RxError as e_:
+            det_mz = str(e_)
+    run.ob("R7-pe-extent", "decoders.pe_file.find_pe_files/every-signature-is-a-candidate", ok_mz, f"{pem.rel}:{scans[0].lineno}",
+           "the scan stops at every `MZ` followed by a complete DOS header, whatever bytes the header contains", det_mz, mech="language containment")
+
     # ------------------------------------------------------------------ R6 label agreement with EXT_MAP
     ext_map = prog.const(fm, "EXT_MAP")
     for fq, ext in (("decoders.filename.find_executable_name", b".exe"), ("decoders.filename.find_library", b".dll")):
